@@ -2,7 +2,7 @@
    Model: Model/HeadShift.v, a model of ShiftFormula (theory/head.py): shifting a head formula from its origin step s to
    the current step s+d, with until/release unrolled and parts behind the current step read classically. *)
 From Coq Require Import List Bool Arith ZArith Lia.
-Require Import GenPrelude TheoryPrelude FormPrelude FromHeadForm HT TEL Laws HeadShift HeadComplete HeadForm.
+Require Import GenPrelude TheoryPrelude FormPrelude FromHeadForm FromHeadRanges HT TEL Laws HeadShift HeadComplete HeadForm IntervalSet IntervalProofs HeadRanges RangesCover.
 (* at the origin step the shifted formula is classically the formula itself *)
 Theorem C04_shift_origin_classical : forall (A : Type) (h : nat) (T : trace A) (p : hf A) (k : nat), k <= h ->
   ssat A h T T (shift A p 0) k = csat A h T p k.
@@ -60,6 +60,18 @@ Proof. exact shift_until_spec. Qed.
 Theorem C04_unfold_is_cnf : forall (A : Type) (h : nat) (H T : trace A) (k : nat) (g : sf A),
   forallb (clause_sat A h H T k) (unfold A g) = ssat A h H T g k.
 Proof. exact unfold_sat. Qed.
+(* the domain rule: the time ranges computed for the atoms of a head formula (TheoryAtomTransformer, increments REGENERATED from
+   transformers/head.py) cover every atom that a shifted formula can have in a rule head, at its distance from the origin state - so the atom
+   has been introduced into the atom base and ClauseToRule finds it *)
+Theorem C04_ranges_cover_every_head_atom : forall (A : Type) (p : hf A) (d : nat) (a : A),
+  In a (head_atoms A (shift A p d)) -> exists r, In (a, r) (ranges A p (0, Some 0)) /\ within d r.
+Proof. exact ranges_cover. Qed.
+(* IntervalSet (comparison, union and emptiness test of Interval REGENERATED): add keeps the intervals sorted, non-empty and separated
+   and adds exactly the points of the new interval; a set built from a list of intervals contains exactly the points of its members *)
+Theorem C04_interval_set_add : forall (l : list iv) (y : iv), wf l -> wf (add y l) /\ forall z, mem z (add y l) = inb z y || mem z l.
+Proof. exact add_ok. Qed.
+Theorem C04_interval_set_of_list : forall xs : list iv, wf (of_list xs) /\ forall z, mem z (of_list xs) = existsb (inb z) xs.
+Proof. exact of_list_ok. Qed.
 Print Assumptions C04_shift_origin_classical.
 Print Assumptions C04_shift_is_consequence.
 Print Assumptions C04_single_state_reading.
@@ -71,3 +83,6 @@ Print Assumptions C04_past_operators_rejected_in_heads.
 Print Assumptions C04_shift_model_follows_source_next.
 Print Assumptions C04_shift_model_follows_source_until.
 Print Assumptions C04_unfold_is_cnf.
+Print Assumptions C04_ranges_cover_every_head_atom.
+Print Assumptions C04_interval_set_add.
+Print Assumptions C04_interval_set_of_list.
